@@ -268,6 +268,9 @@ class Exec(Engine):
                 kwargs = {}
                 for k, v in zip(node.keywords, vals[len(argnodes):]):
                     if k.arg is None:
+                        if isinstance(v, VRef) and isinstance(s2.heap.get(v.loc), HDict):
+                            kwargs.update(s2.heap[v.loc].entries)
+                            continue
                         raise Undecided('**kwargs call', node)
                     kwargs[k.arg] = v
                 out.extend(self.call_value(fv, args, kwargs, s2, node))
@@ -1178,6 +1181,15 @@ class Exec(Engine):
     def exec_Expr(self, node, st):
         if isinstance(node.value, ast.Constant) and isinstance(node.value.value, str):
             return [('normal', None, st)]        # docstring / string statement
+        if isinstance(node.value, ast.Yield):
+            # generator under contract: the yielded values are a ghost event stream; the consumer runs between
+            # two yields but cannot touch the generator's locals (DESIGN 2.2)
+            def go(v, s):
+                self.log_event(s, 'yield', {'value': v}, 'normal')
+                return [('normal', None, s)]
+            if node.value.value is None:
+                return go(NONE, st)
+            return self._each(self.ev(node.value.value, st), go)
         return self._each(self.ev(node.value, st), lambda v, s: [('normal', None, s)])
 
     def exec_Return(self, node, st):
